@@ -66,7 +66,19 @@ pub fn judge_pair(ctx: &mut Ctx, a_text: &str, b_text: &str, class_hint: &str) {
         return;
     }
     let w = json!({"a": a.text, "b": b.text});
-    let texts = [format!("{} || {}", a.text, b.text), format!("{} || {}", b.text, a.text), format!("{} {}", a.text, b.text), format!("{} {}", b.text, a.text), format!("{}||{}", a.text, b.text), format!("foo {}  {} ~1.y", a.text, b.text), format!("{} || nonsense", a.text)];
+    // garbage tokens rotate through the whole list (token-boundary junk, lone pipes, …) and
+    // are placed before, between and after the comparators
+    let h = hash64(&format!("{}|{}", a.text, b.text)) as usize;
+    let (g1, g2, g3) = (GARBAGE[h % GARBAGE.len()], GARBAGE[(h / 31) % GARBAGE.len()], GARBAGE[(h / 977) % GARBAGE.len()]);
+    let texts = [
+        format!("{} || {}", a.text, b.text),
+        format!("{} || {}", b.text, a.text),
+        format!("{} {}", a.text, b.text),
+        format!("{} {}", b.text, a.text),
+        format!("{}||{}", a.text, b.text),
+        format!("{} {} {} {}  {}", g1, a.text, g2, b.text, g3),
+        format!("{} || {}", a.text, g1),
+    ];
     let parsed: Vec<Option<Range>> = match guarded(|| texts.iter().map(|t| Range::parse(t).ok()).collect::<Vec<_>>()) {
         Ok(p) => p,
         Err(p) => {
